@@ -72,6 +72,13 @@ macro_rules! affine_mod {
             fn pair(fam: &str, p0: &[f64], p1: &[f64], map: Map, strm: &[(u64, u64, u64)], t: &mut Tally, profile: &str) {
                 let (d0, d1) = match (fm::build(fam, p0), fm::build(fam, p1)) {
                     (Ok(a), Ok(b)) => (a, b),
+                    (Ok(_), Err(e)) => {
+                        // the canonical member is accepted but its affine image is not: the map must preserve validity
+                        t.nviol += 1;
+                        emit(&json!({"ev": "viol", "fam": fam, "ty": $tyname, "kind": "image_rejected", "p0": p0, "p1": p1, "map": format!("{map:?}"),
+                            "msg": format!("constructor rejects the affine image of an accepted parameter set: {e}"), "profile": profile}));
+                        return;
+                    }
                     (a, b) => {
                         emit(&json!({"ev": "ctor_err", "fam": fam, "ty": $tyname, "p0": p0, "p1": p1, "err": format!("{:?} {:?}", a.err(), b.err())}));
                         return;
